@@ -207,12 +207,16 @@ fn api_rec(o: &mut Vec<u8>, idx: u64, slot: u8, op: u8, pl_data: u8, pl_out: u8,
     w32(o, mask);
 }
 
-fn api_history(o: &mut Vec<u8>, idx: u64, rng: &mut Rng, tbb: bool, no_avx512: bool, first_big: bool, disagreements: &mut Vec<String>) {
+fn api_history(o: &mut Vec<u8>, idx: u64, rng: &mut Rng, tbb: bool, no_avx512: bool, first_big: u32, disagreements: &mut Vec<String>) {
     let mask = if no_avx512 { *rng.pick(&MASKS[..4]) } else { *rng.pick(&MASKS) };
     let mut slots: Vec<Option<SlotModel>> = (0..4).map(|_| None).collect();
     let nops = 3 + rng.usize_below(12);
     let big = rng.chance(1, 25);
-    let budget: usize = if big { 3 << 20 } else { 128 * 1024 };
+    // --first-big 2: one history in eight opens with a single update of 1..20 MiB (size-threshold
+    // behaviour of one thread while the other threads are in the middle of ordinary updates)
+    let very_big = first_big >= 2 && rng.chance(1, 8);
+    let budget: usize = if very_big { 24 << 20 } else if big { 3 << 20 } else { 128 * 1024 };
+    let first_big = first_big >= 1;
     // op 0 is always an init on slot 0
     for step in 0..nops {
         let live: Vec<usize> = (0..4).filter(|i| slots[*i].is_some()).collect();
@@ -257,7 +261,11 @@ fn api_history(o: &mut Vec<u8>, idx: u64, rng: &mut Rng, tbb: bool, no_avx512: b
                 let n = if first_big && s.m.bytes.is_empty() {
                     // the first update of a history is a single large one (>= 5 chunks), so that a
                     // first call racing with feature detection spans several recursion levels
-                    (5 * 1024 + rng.usize_below(60 * 1024)).min(room)
+                    if very_big {
+                        ((1usize << 20) << rng.usize_below(5)) + rng.usize_below(1 << 20)
+                    } else {
+                        (5 * 1024 + rng.usize_below(60 * 1024)).min(room)
+                    }
                 } else if rng.chance(1, 6) {
                     (1024usize << rng.usize_below(12)).min(room)
                 } else {
@@ -334,7 +342,7 @@ pub fn run(args: &Args) {
     let only_class = args.get("class").map(|s| s.to_string());
     let total = if what == "kernels" { args.n(600_000, 12_000_000) } else { args.n(4000, 150_000) };
     let no_avx512 = args.get("no-avx512") == Some("1");
-    let first_big = args.get("first-big") == Some("1");
+    let first_big: u32 = args.get("first-big").map(|v| v.parse().expect("first-big")).unwrap_or(0);
     let cls = classes(&variant, no_avx512);
     let stdout = std::io::stdout();
     let mut out = stdout.lock();
